@@ -22,6 +22,7 @@ pub enum SetOp {
     Empty(u8),
     Universe(u8),
     Contains(u8, usize),    // query
+    CloneFrom(u8, u8),      // target := other.clone()  (a clone is a set of its own in the same environment)
 }
 
 impl SetOp {
@@ -35,6 +36,7 @@ impl SetOp {
             SetOp::Empty(w) => format!("{}.empty()", s(w)),
             SetOp::Universe(w) => format!("{}.universe()", s(w)),
             SetOp::Contains(w, x) => format!("{}.contains({})", s(w), x),
+            SetOp::CloneFrom(a, b) => format!("{}.becomes_clone_of({})", s(a), s(b)),
         }
     }
     fn to_json(self) -> Value {
@@ -54,6 +56,7 @@ impl SetOp {
             "empty" => SetOp::Empty(t),
             "universe" => SetOp::Universe(t),
             "contains" => SetOp::Contains(t, arg.parse().ok()?),
+            "becomes_clone_of" => SetOp::CloneFrom(t, w(arg)?),
             _ => return None,
         })
     }
@@ -74,11 +77,12 @@ fn apply_ref(state: (u64, u64), op: SetOp, bits: usize) -> (u64, u64) {
         SetOp::Empty(w) => s[w as usize] = 0,
         SetOp::Universe(w) => s[w as usize] = full,
         SetOp::Contains(..) => {}
+        SetOp::CloneFrom(a, b) => s[a as usize] = s[b as usize],
     }
     (s[0], s[1])
 }
 
-fn apply_real(sets: &[BDDSet; 2], op: SetOp) -> Option<bool> {
+fn apply_real(sets: &mut [BDDSet; 2], op: SetOp) -> Option<bool> {
     match op {
         SetOp::Insert(w, x) => {
             sets[w as usize].insert(x);
@@ -105,6 +109,13 @@ fn apply_real(sets: &[BDDSet; 2], op: SetOp) -> Option<bool> {
             None
         }
         SetOp::Contains(w, x) => Some(sets[w as usize].contains(x)),
+        SetOp::CloneFrom(a, b) => {
+            if a != b {
+                let c = sets[b as usize].clone();
+                sets[a as usize] = c;
+            }
+            None
+        }
     }
 }
 
@@ -128,6 +139,8 @@ fn all_ops(bits: usize) -> Vec<SetOp> {
             v.push(SetOp::Complement(a, b));
         }
     }
+    v.push(SetOp::CloneFrom(0, 1));
+    v.push(SetOp::CloneFrom(1, 0));
     v
 }
 
@@ -140,6 +153,7 @@ fn sig_for(op: SetOp, what: &str) -> String {
         SetOp::Empty(..) => "empty",
         SetOp::Universe(..) => "universe",
         SetOp::Contains(..) => "contains",
+        SetOp::CloneFrom(..) => "clone",
     };
     format!("C19:{}{}:{}", kind, if op.self_aliased() { "(self-aliased)" } else { "" }, what)
 }
@@ -159,12 +173,12 @@ fn run_history(st: &mut Stats, bits: usize, history: &[SetOp], fam: &str) {
     let hist = history.to_vec();
     let observed = guarded(move || {
         let env = Rc::new(BDDEnv::new());
-        let sets = [BDDSet::with_env(bits, &env), BDDSet::with_env(bits, &env)];
+        let mut sets = [BDDSet::with_env(bits, &env), BDDSet::with_env(bits, &env)];
         let mut last_answer = None;
         let mut query_changed_set = false;
         for op in &hist {
             let before = [sets[0].bdd.borrow().clone(), sets[1].bdd.borrow().clone()];
-            last_answer = apply_real(&sets, *op);
+            last_answer = apply_real(&mut sets, *op);
             if let SetOp::Contains(..) = op {
                 if sets[0].bdd.borrow().as_ref() != before[0].as_ref() || sets[1].bdd.borrow().as_ref() != before[1].as_ref() {
                     query_changed_set = true;
@@ -540,7 +554,7 @@ pub fn run(ctx: &Ctx) -> (Stats, Spec) {
         super::common::miri_tripwire(ctx, &mut st, 150);
     }
     let spec = Spec {
-        rule: "breadth-first over reference states: two sets sharing one environment, each (state pair, next operation) executed on fresh real sets via the shortest history reaching the state; then all memberships of both sets are read twice through contains() and the public bdd field is compared across the queries; plus histories on WIDE sets (b in {31, 32, 33, 40, 48, 63, 64} with usize elements or a user-defined element type, b in {65, 66, 72, 96, 127, 128} with a user-defined 128-bit element type) over pools of sampled elements, their one-bit neighbours and (b > 64) elements equal modulo 2^64; plus ONE long history of two 64-bit sets in one environment that grows beyond 1.4 million [quick] / 5 million [thorough] nodes, memberships of the newest, older and never-inserted elements compared after every step; plus random histories of length 5-64 [quick] / 5-504 [thorough] with b in 2..4. distinct = (state pair before the last operation, last operation, b); non-trivial = both sets neither empty nor the universe.".into(),
+        rule: "breadth-first over reference states: two sets sharing one environment, each (state pair, next operation — insert, union, intersect, complement, empty, universe, contains, and `X = Y.clone()`) executed on fresh real sets via the shortest history reaching the state; then all memberships of both sets are read twice through contains() and the public bdd field is compared across the queries; plus histories on WIDE sets (b in {31, 32, 33, 40, 48, 63, 64} with usize elements or a user-defined element type, b in {65, 66, 72, 96, 127, 128} with a user-defined 128-bit element type) over pools of sampled elements, their one-bit neighbours and (b > 64) elements equal modulo 2^64; plus ONE long history of two 64-bit sets in one environment that grows beyond 1.4 million [quick] / 5 million [thorough] nodes, memberships of the newest, older and never-inserted elements compared after every step; plus random histories of length 5-64 [quick] / 5-504 [thorough] with b in 2..4. distinct = (state pair before the last operation, last operation, b); non-trivial = both sets neither empty nor the universe.".into(),
         assumptions: vec![
             "only elements < 2^b are used (the statement speaks of b-bit integers)".into(),
             "`complement` is set difference, as the statement says".into(),
